@@ -68,6 +68,16 @@ def gen_batch(seed):
     if st.chance(0.3, 'shuffle'):
         batch = st.shuffle(batch, 'sh')
         faults['shuffled'] = 1
+    elif faults['lost'] and st.chance(0.35, 'overrun'):
+        # an exchange that answers "limit = n" literally: minutes are missing inside, so the page runs past the
+        # requested end by as many candles (or a few); nothing outside the interval may come back
+        extra = faults['lost'] if st.chance(0.6, 'overrun_exact') else st.randint(1, 3, 'overrun_n')
+        k = batch[-1]['close'] if batch else price
+        for j in range(extra):
+            t = start + (n + j) * 60_000
+            batch.append({'id': f'over{j}', 'exchange': 'Fake Exchange', 'symbol': 'BTC-USDT', 'timeframe': '1m', 'timestamp': t,
+                          'open': k, 'close': k, 'high': k * 1.001, 'low': k * 0.999, 'volume': 1.0})
+        faults['overrun'] = extra
     return {'start': start, 'end': start + (n - 1) * 60_000, 'batch': batch, 'pattern': pattern, 'faults': faults}
 
 
@@ -77,7 +87,7 @@ def check_fill(case):
     batch = copy.deepcopy(case['batch'])
     snapshot = copy.deepcopy(batch)
     start, end = case['start'], case['end']
-    tag = f"pattern={case['pattern']}|dup={int(case['faults']['dup'] > 0)}|shuffled={case['faults']['shuffled']}"
+    tag = f"pattern={case['pattern']}|dup={int(case['faults']['dup'] > 0)}|shuffled={case['faults']['shuffled']}" + ('|overrun=1' if case['faults'].get('overrun') else '')
 
     def v(clause, fp, detail):
         vs.append({'property': 'C20', 'clause': clause, 'fingerprint': fp, 'detail': detail, 'seq': 0, 'horizon': -1})
@@ -385,7 +395,8 @@ class CandleFeedCheck(SessionCheck):
         if mode == 'fill':
             case = gen_batch(arg['seed'])
             return self.pack(arg, mode, case, check_fill(case), dict({'fills': 1, 'fault_lost_minutes': case['faults']['lost'],
-                                                                      'fault_duplicated': case['faults']['dup'], 'fault_shuffled': case['faults']['shuffled']}),
+                                                                      'fault_duplicated': case['faults']['dup'], 'fault_shuffled': case['faults']['shuffled'],
+                                                                      'fault_page_overruns_interval': case['faults'].get('overrun', 0)}),
                              f"fill/{case['pattern']}/{len(case['batch'])}/{case['faults']}")
         if mode == 'store':
             case = gen_store_ops(arg['seed'])
@@ -480,7 +491,7 @@ CHECK = CandleFeedCheck(
     real_components=['import_candles_mode._fill_absent_candles', 'CandlesState.add_candle/batch_add_candle/add_multiple_1m_candles',
                      'research.backtest spacing validation'] + COMMON_REAL,
     stub_components=['exchange REST driver (fake, lossy)', 'candle database: in-memory SQLite instead of Postgres', 'wall clock / sleep of the import loop (virtual)'] + COMMON_STUB,
-    fault_kinds=['fault_lost_minutes', 'fault_duplicated', 'fault_shuffled', 'fault_redelivery', 'fault_late_candle', 'fault_overlap',
+    fault_kinds=['fault_lost_minutes', 'fault_duplicated', 'fault_shuffled', 'fault_page_overruns_interval', 'fault_redelivery', 'fault_late_candle', 'fault_overlap',
                  'fault_crash_mid_import', 'fault_restart'],
     probes=['batch_into_empty_store', 'batch_with_repeated_minute', 'fills', 'ops', 'import_runs', 'fetch_calls', 'fill_calls', 'rows_checked', 'skipped_existing_batches', 'replaced_depth>=20', 'replaced_index_0_or_1', 'older_unknown_raised', 'older_unknown_inserted', 'older_unknown_ignored',
             'spacing_ok', 'spacing_5m', 'spacing_dup-first', 'spacing_reversed', 'spacing_2m', 'spacing_zero'],
